@@ -1000,6 +1000,45 @@ func (e *Engine) kernelCoverage(total *term.T) {
 	e.res.Reached[fmt.Sprintf("kernels:simd=%v,scalar=%v", simd != nil, scalar != nil)]++
 }
 
+// ---- sync / sync/atomic: sequential execution, so plain memory operations ----
+
+func init() {
+	load := func(e *Engine, _ *frame, _ token.Pos, a []Value) Value { return e.load(a[0], nil) }
+	store := func(e *Engine, _ *frame, _ token.Pos, a []Value) Value { e.store(a[0], a[1]); return nil }
+	add := func(e *Engine, _ *frame, _ token.Pos, a []Value) Value {
+		v := term.Add(asT(e.load(a[0], nil)), asT(a[1]))
+		e.store(a[0], v)
+		return v
+	}
+	cas := func(e *Engine, _ *frame, _ token.Pos, a []Value) Value {
+		cur := e.load(a[0], nil)
+		if e.branch(e.equalVals(cur, a[1]), "cas") {
+			e.store(a[0], a[2])
+			return term.True
+		}
+		return term.False
+	}
+	swap := func(e *Engine, _ *frame, _ token.Pos, a []Value) Value {
+		old := e.load(a[0], nil)
+		e.store(a[0], a[1])
+		return old
+	}
+	for _, t := range []string{"Int32", "Int64", "Uint32", "Uint64", "Uintptr", "Pointer"} {
+		intrinsics["sync/atomic.Load"+t] = load
+		intrinsics["sync/atomic.Store"+t] = store
+		intrinsics["sync/atomic.CompareAndSwap"+t] = cas
+		intrinsics["sync/atomic.Swap"+t] = swap
+		if t != "Pointer" {
+			intrinsics["sync/atomic.Add"+t] = add
+		}
+	}
+	nop := func(e *Engine, _ *frame, _ token.Pos, a []Value) Value { return nil }
+	for _, n := range []string{"(*sync.Mutex).Lock", "(*sync.Mutex).Unlock", "(*sync.RWMutex).Lock", "(*sync.RWMutex).Unlock", "(*sync.RWMutex).RLock", "(*sync.RWMutex).RUnlock"} {
+		intrinsics[n] = nop
+	}
+	intrinsics["(*sync.Mutex).TryLock"] = func(e *Engine, _ *frame, _ token.Pos, a []Value) Value { return term.True }
+}
+
 // ---- modelled directory listing (filepath.Glob) ----
 
 func (e *Engine) notExistErr() Value {
